@@ -2,6 +2,7 @@ package props
 
 import (
 	"golang.org/x/tools/go/ssa"
+	"strings"
 
 	"verif/checker/internal/ana"
 )
@@ -135,6 +136,10 @@ func runC01(c *Ctx) {
 			}
 		}
 	}
+	// `if !equation { return false }; return true` is the same program as `return equation`: the failing
+	// equation is then a legitimate way to a `return false`
+	negEq := func(p string) string { return "bin<!=>(" + strings.TrimPrefix(p, "bin<==>(") }
+	rejectEdges = append(rejectEdges, plainEdges(edgesMatching(b, negEq(patEquation1), negEq(patEquation2)))...)
 	avoid := ana.ReachableAvoiding(fn, rejectEdges)
 	for _, rc := range rejects {
 		r.Check(!avoid[rc.Block], "C01.reject-closed.return-false", pos(rc.Ret),
@@ -175,30 +180,60 @@ func runC01(c *Ctx) {
 		"(*filippo.io/edwards25519.Point).SetBytes": true, "(*filippo.io/edwards25519.Scalar).SetCanonicalBytes": true,
 	}
 	nDec := 0
-	for _, ci := range ana.Calls(fn) {
-		if !acceptBlocks[ci.Block()] {
-			continue
-		}
-		cc := ci.Common()
-		touches := false
-		for _, a := range cc.Args {
-			root := b.Root(a)
-			if root == fn.Params[0] || root == fn.Params[2] {
-				touches = true
+	// consumers of the key / signature bytes, looking through repository helpers that are handed the bytes
+	var scan func(f *ssa.Function, fb *ana.Builder, tracked map[ssa.Value]bool, inAccept func(*ssa.BasicBlock) bool, depth int)
+	scan = func(f *ssa.Function, fb *ana.Builder, tracked map[ssa.Value]bool, inAccept func(*ssa.BasicBlock) bool, depth int) {
+		for _, ci := range ana.Calls(f) {
+			if !inAccept(ci.Block()) {
+				continue
 			}
+			cc := ci.Common()
+			var hit []int
+			for i, a := range cc.Args {
+				if tracked[fb.Root(a)] {
+					hit = append(hit, i)
+				}
+			}
+			if len(hit) == 0 {
+				continue
+			}
+			name := ana.CalleeName(cc)
+			if h := ana.StaticRepoCallee(cc); h != nil && depth < 3 && !allowed[name] {
+				sub := map[ssa.Value]bool{}
+				for _, i := range hit {
+					if i < len(h.Params) {
+						sub[h.Params[i]] = true
+					}
+				}
+				r.Fn(ana.ShortFunc(h))
+				scan(h, ana.NewBuilder(c.P, h), sub, func(*ssa.BasicBlock) bool { return true }, depth+1)
+				continue
+			}
+			nDec++
+			r.Check(allowed[name], "C01.decoders.consumer."+name, pos(ci), "call %s receives publicKey/sig bytes on the accept path; allowed consumers: len, hash.Write, Point.SetBytes, Scalar.SetCanonicalBytes", name)
 		}
-		if !touches {
-			continue
-		}
-		nDec++
-		name := ana.CalleeName(cc)
-		r.Check(allowed[name], "C01.decoders.consumer."+name, pos(ci), "call %s receives publicKey/sig bytes on the accept path; allowed consumers: len, hash.Write, Point.SetBytes, Scalar.SetCanonicalBytes", name)
 	}
+	scan(fn, b, map[ssa.Value]bool{fn.Params[0]: true, fn.Params[2]: true}, func(blk *ssa.BasicBlock) bool { return acceptBlocks[blk] }, 0)
 	r.Floor("C01.floor.consumers", nDec, 6, "consumers of key/sig bytes")
 
 	// --- equation & k-hash
 	for _, rc := range accepts {
 		t := b.Of(rc.Val, rc.Ret)
+		if ana.IsConstBool(rc.Val, true) {
+			// `return true` guarded by the equation: the guard literal takes the place of the returned expression
+			var guards []ana.CondEdge
+			for _, ce := range edgesMatching(b, patEquation1, patEquation2) {
+				guards = append(guards, ce)
+			}
+			if len(guards) > 0 && mustPass(fn, rc.Block, plainEdges(guards)) {
+				t = guards[0].Lit
+				for _, g := range guards[1:] {
+					if g.Lit.String() != t.String() {
+						t = b.Of(rc.Val, rc.Ret)
+					}
+				}
+			}
+		}
 		bd, ok := ana.MatchAny(t, patEquation1, patEquation2)
 		if !ok {
 			r.Undec("C01.equation.shape", pos(rc.Ret), "returned value is not Equal(MultByCofactor(Subtract(·,·)), identity)==1: %s", short(t.String(), 400))
@@ -222,7 +257,7 @@ func runC01(c *Ctx) {
 		r.Check(okA, "C01.equation.A-negated", pos(rc.Ret), "A operand history must be [SetBytes(publicKey), Negate(self)]: %s", short(vb["$A"].String(), 300))
 		_, okS := ana.MatchAny(vb["$S"], patSObj, patSObj2)
 		r.Check(okS, "C01.equation.S-canonical", pos(rc.Ret), "S operand is NewScalar().SetCanonicalBytes(sig[32:]): %s", short(vb["$S"].String(), 200))
-		_, okK := ana.Match(patKHash, vb["$k"])
+		_, okK := ana.MatchX(c.P, patKHash, vb["$k"])
 		r.Check(okK, "C01.k-hash.raw-bytes-order", pos(rc.Ret), "k must be SetUniformBytes(SHA512(sig[0:32] ‖ publicKey ‖ message)) over the bytes as given: %s", short(vb["$k"].String(), 500))
 	}
 
